@@ -242,6 +242,22 @@ example : (payload false 2 {} [0, 0, 1, 0x65, 1, 2]).1 = [] := by decide +kernel
 example : holdback none none [[0x67, 1], [0x65, 2], [0x68, 3], [0x41, 4]] =
     [[0x65, 2], [0x67, 1], [0x68, 3], [0x41, 4]] := by decide
 
+/-! ### the fragment train of ANY unit -/
+
+/-- For every unit (any type, any F/NRI, any content) and every MTU the payloader sends nothing
+    (only when MTU ≤ 2 and the unit does not fit), the unit itself (when it fits), or AT LEAST TWO
+    FU-A fragments carrying the unit's NRI and type, S on the first only, E on the last only, each
+    with `mtu - 2` payload bytes except possibly the last. -/
+theorem c10_fua_train (mtu : Nat) (h : UInt8) (body : Bytes) :
+    singleOrFua mtu (h :: body) = [] ∧ mtu ≤ 2 ∧ mtu < (h :: body).length
+    ∨ singleOrFua mtu (h :: body) = [h :: body] ∧ (h :: body).length ≤ mtu
+    ∨ singleOrFua mtu (h :: body) = encFu (mkHdr 0 (hNri h) 28) (hType h) true (chunks (mtu - 2) body) ∧
+        2 ≤ (chunks (mtu - 2) body).length ∧ 3 ≤ mtu ∧ mtu < (h :: body).length :=
+  singleOrFua_cases mtu h body
+
+example : singleOrFua 5 [0xE5, 1, 2, 3, 4, 5, 6, 7] =
+    [[0x7C, 0x85, 1, 2, 3], [0x7C, 0x05, 4, 5, 6], [0x7C, 0x45, 7]] := by decide +kernel
+
 /-! ### the predicates are not vacuous: they reject what the unrepaired code did, and other wrong shapes -/
 
 /-- DESIGN §7 row 12 as observed on the unrepaired tree (`c10.rt 1488 …`): MTU 3, SPS, PPS, IDR of
